@@ -111,12 +111,14 @@ PROPS = {
         "expect_probes": ["log-past-10-entries", "log-past-100-entries", "porcupine-ok"],
     },
     "C08": {
+        "race_companion": {"quick": 300, "thorough": 8000},
         "tiers": tiers(3000, 120000),
         "rule": "rapid-generated scenario: 0-6 registrations on one type (plain/context-aware, sync/Async, Sequential, filters; each may cancel the publish context on its k-th invocation), 1-5 consecutive publishes whose context is absent / live cancellable / already cancelled / a 5 ms deadline that expires inside a handler's simulated sleep, every subset of the four publish hooks (installed by option or by setter), optional Observability and interface-typed publish, + choice tape for async tasks. Fault = context cancellation (before the call, by a handler, by deadline). Every run is non-trivial; distinct = (scenario shape, schedule trace hash, history hash).",
         "components": REAL_BUS,
         "assumptions": COMMON_ASSUME + ["a synchronous handler counts as 'started after cancellation' only if the cancellation happened before the previous synchronous handler of that publish returned or before this handler's filter finished evaluating (the unavoidable check-then-call window is not flagged)"],
     },
     "C06": {
+        "race_companion": {"quick": 300, "thorough": 8000},
         "tiers": tiers(2500, 100000),
         "rule": "rapid-generated scenario: 1-4 registrations on two event types A and B (Async, or sync handlers that publish nested async work; handler bodies sleep 0-50 ms of simulated time; A-handlers may publish a B event from inside), a waiter task running 1-7 steps of publish / sleep / Wait / Shutdown(ctx: background, deadline 0-200 ms, already cancelled), 0-2 concurrent publisher tasks, store with Close / without Close / failing Close / no store, + choice tape (also decides Shutdown's select when both cases are ready). Non-trivial: at least one Wait or Shutdown call was made; distinct = (scenario shape, schedule trace hash, history hash).",
         "components": dict(REAL_BUS, **{"event store": "harness stub counting Close calls"}),
@@ -124,12 +126,14 @@ PROPS = {
         "expect_probes": ["wait-called-with-async-work-pending"],
     },
     "C07": {
+        "race_companion": {"quick": 300, "thorough": 8000},
         "tiers": tiers(3000, 120000),
         "rule": "rapid-generated scenario: 1-3 registrations on one event type (at least one Sequential; sync or Async), 1-4 publisher tasks each publishing 1-8 tagged events one after another, handler bodies that yield 1-5 times between their enter and exit marks, optionally publishing through an interface-typed value (reflection dispatch path), + choice tape. Non-trivial: >=1 decision point with >=2 ready tasks; distinct = (scenario shape, schedule trace hash, history hash).",
         "components": REAL_BUS,
         "assumptions": COMMON_ASSUME,
     },
     "C05": {
+        "race_companion": {"quick": 300, "thorough": 8000},
         "tiers": tiers(3000, 120000),
         "rule": "rapid-generated scenario: 1-6 registrations on one event type (plain/context-aware alternating, option subsets of Once/Async/Sequential/filter), each with a set of invocation numbers on which it panics and one of five panic-value kinds (string, error, struct, runtime.Error, nil), 1-6 consecutive publishes, panic handler installed or not, Wait after every publish or only at the end, + choice tape for the async tasks. Fault = injected handler panic. Non-trivial: at least one panic was actually raised; distinct = (scenario shape, schedule trace hash, history hash).",
         "components": REAL_BUS,
@@ -143,12 +147,14 @@ PROPS = {
         "expect_probes": ["reentrant-op-from-handler", "more-types-than-shards"],
     },
     "C02": {
+        "race_companion": {"quick": 300, "thorough": 8000},
         "tiers": tiers(3000, 120000),
         "rule": "rapid-generated scenario: 0-3 initial registrations, then 2-4 client tasks each issuing 1-6 operations (Subscribe with Once/Async/Sequential/filter options, Unsubscribe, Clear, Publish) on 1-2 shared event types drawn from 40, + choice tape. Every API call/return and handler entry is stamped with the simulator's sequence number; the oracle applies the property's interval rules per (registration, publish) pair and probes the quiescent registry with two extra publishes. Non-trivial: >=1 decision point with >=2 ready tasks; distinct = (scenario shape, schedule trace hash, history hash).",
         "components": REAL_BUS,
         "assumptions": COMMON_ASSUME + ["each registration uses its own handler function, so a registration is identified by its function (Unsubscribe is by function identity)"],
     },
     "C04": {
+        "race_companion": {"quick": 300, "thorough": 8000},
         "tiers": tiers(4000, 150000),
         "rule": "rapid-generated scenario (1-5 registrations incl. >=1 Once handler with sync/async x filter kinds, 1-4 concurrent publisher tasks x 1-4 publishes each, every publish live / pre-cancelled) + choice tape; executed under the simrt scheduler. A run is non-trivial when at least one decision point had >=2 ready tasks; distinct = distinct (scenario shape, schedule trace hash, history hash).",
         "components": REAL_BUS,
